@@ -284,7 +284,7 @@ def branch_draws():
       fns = [branch(n, n_out, draw) for n in self.draws]
       inb = nn.cond(sel, fns[0], fns[1], self) if self.form == 'cond' else nn.switch(sel, fns, self)
       return inb, (src() if self.sub else kd(self.make_rng('noise')))
-  bad = []
+  bad, rows = [], []
   for form, all_draws in (('cond', [(2, 1), (1, 2), (3, 1), (2, 2)]), ('switch', [(2, 1, 3), (1, 3, 1), (3, 2, 1)])):
     for draws in all_draws:
       for sub in (False, True):
@@ -295,9 +295,13 @@ def branch_draws():
             keys = [tuple(int(v) for v in np.asarray(r).ravel()) for r in np.asarray(inb)[:draws[idx]]] + [tuple(int(v) for v in np.asarray(after).ravel())]
             if len(set(keys)) != len(keys):
               bad.append({'form': form, 'draws': list(draws), 'sub_module': sub, 'branch': idx, 'keys': [list(k) for k in keys]})
+            # the call count each key was drawn at (decoded by recomputing fold_in(seed, sha1(path + count)))
+            path = ['src'] if sub else []
+            table = {expected_linen_key(jax.random.key(7), path, cnt, False): cnt for cnt in range(1, 40)}
+            rows.append({'form': form, 'draws': list(draws), 'sub_module': sub, 'branch': idx, 'counts': [table.get(k, 0) for k in keys]})
           except Exception as e:  # pylint: disable=broad-except
             bad.append({'form': form, 'draws': list(draws), 'sub_module': sub, 'branch': idx, 'err': type(e).__name__, 'msg': str(e)[:160]})
-  return bad
+  return {'bad': bad, 'rows': rows}
 
 
 def main(payload):
